@@ -10,7 +10,20 @@ Termination is not proved.
 """
 from __future__ import annotations
 
+import os
+
 from .rt import _Break, _Continue
+
+
+def _prove(ctx, clause, formula):
+    r = ctx.prove(clause, formula)
+    if os.environ.get('VERIF_DEBUG_INV') and getattr(r, 'status', None) != 'proved':
+        import z3
+        for c in (formula.children() if z3.is_and(formula) else [formula]):
+            q = ctx._check(z3.Not(c))
+            if q != z3.unsat:
+                print('   [inv-debug]', clause, '->', q, ':', str(c)[:300])
+    return r
 
 
 class LoopDone(Exception):
@@ -20,7 +33,7 @@ class LoopDone(Exception):
 def invariant_while(name, inv, havoc):
     def handler(I, st, fr):
         ctx = I.ctx
-        ctx.prove(name + '/invariant-holds-on-entry', inv(I, fr))
+        _prove(ctx, name + '/invariant-holds-on-entry', inv(I, fr))
         havoc(I, fr)
         ctx.assume(inv(I, fr))
         c = I.eval(st.test, fr)
@@ -31,7 +44,7 @@ def invariant_while(name, inv, havoc):
                 return
             except _Continue:
                 pass
-            ctx.prove(name + '/invariant-preserved-by-an-arbitrary-iteration', inv(I, fr))
+            _prove(ctx, name + '/invariant-preserved-by-an-arbitrary-iteration', inv(I, fr))
             raise LoopDone()
         I.exec_block(st.orelse, fr)
     return handler
@@ -59,7 +72,7 @@ def invariant_for_range(name, inv, havoc):
             I.exec_block(st.orelse, fr)
             return
         n = it.length
-        ctx.prove(name + '/invariant-holds-on-entry', inv(I, fr, z3.IntVal(0)))
+        _prove(ctx, name + '/invariant-holds-on-entry', inv(I, fr, z3.IntVal(0)))
         havoc(I, fr)
         i = ctx.fresh('i', z3.IntSort())
         if I.ctx.choose(2, lambda k: True) == 0:
@@ -73,9 +86,57 @@ def invariant_for_range(name, inv, havoc):
                 return
             except _Continue:
                 pass
-            ctx.prove(name + '/invariant-preserved-by-an-arbitrary-iteration', inv(I, fr, i + 1))
+            _prove(ctx, name + '/invariant-preserved-by-an-arbitrary-iteration', inv(I, fr, i + 1))
             raise LoopDone()
         # after the loop (no break): invariant at i = n
         ctx.assume(inv(I, fr, n))
         I.exec_block(st.orelse, fr)
     return handler
+
+
+def invariant_for_range_peeled(name, inv, havoc):
+    """As invariant_for_range, but iteration 0 is executed from the actual entry state (exact) and the
+    invariant ``inv(I, fr, i)`` is stated for 1 <= i <= n.  Useful when the first iteration initialises
+    state (fields that are unset on entry and set in every iteration)."""
+    import z3
+
+    def handler(I, st, fr):
+        ctx = I.ctx
+        it = I.eval(st.iter, fr)
+        from .models.arrays import SArr
+        if not (isinstance(it, SArr) and it.kind == 'range'):
+            raise_unsupported('peeled invariant needs a symbolic range')
+        n = it.length
+        if not I.truth(z3.IntVal(0) < n if not isinstance(n, int) else 0 < n):
+            I.exec_block(st.orelse, fr)
+            return
+        I.assign(st.target, it.at(0), fr)
+        try:
+            I.exec_block(st.body, fr)
+        except _Break:
+            return
+        except _Continue:
+            pass
+        _prove(ctx, name + '/invariant-holds-after-the-first-iteration', inv(I, fr, z3.IntVal(1)))
+        havoc(I, fr)
+        i = ctx.fresh('i', z3.IntSort())
+        if I.ctx.choose(2, lambda k: True) == 0:
+            ctx.assume(z3.And(i >= 1, i < n))
+            ctx.assume(inv(I, fr, i))
+            I.assign(st.target, it.at(i), fr)
+            try:
+                I.exec_block(st.body, fr)
+            except _Break:
+                return
+            except _Continue:
+                pass
+            _prove(ctx, name + '/invariant-preserved-by-an-arbitrary-iteration', inv(I, fr, i + 1))
+            raise LoopDone()
+        ctx.assume(inv(I, fr, n))
+        I.exec_block(st.orelse, fr)
+    return handler
+
+
+def raise_unsupported(msg):
+    from .source import Unsupported
+    raise Unsupported(msg)
